@@ -142,7 +142,11 @@ Definition sized_path : term := mk_path_ident "Sized".
 
 Definition abg_intersection (g : abg) (other : ibounds) (s : subs) : list abg :=
   let unsized :=
-    fold_left (fun acc u => fold_left (fun acc k => set_insert acc (fst k)) (subst_key s u sized_path) acc)
+    fold_left (fun acc u =>
+                 (* fix F28: a relaxed parameter the group cannot name is not translated *)
+                 if stable_key s u sized_path
+                 then fold_left (fun acc k => set_insert acc (fst k)) (subst_key s u sized_path) acc
+                 else acc)
               (ib_unsized other) (ab_unsized g) in
   let other' : list (tbid * arow) :=
     fold_left (fun acc e => im_update key_eqb acc (fst e) [] (fun r => row_extend r (snd e))) (ib_bounds other) [] in
